@@ -628,6 +628,32 @@ def sp_scount(ex, e, st):
     return z3.Sum([z3.If(z3.And(iv(i) < n, S[l.at(iv(i))] != 0), 1, 0) for i in range(4)])
 
 
+def sp_lm_shift(ex, e, st):
+    """lm_shift(d, k): every key is a vertex of order k, its list has at most four entries and each entry w is the shift successor of the key that ends in
+    nucleotide w mod 4 (in ANY order, repetitions allowed)."""
+    d, k = _dict(ex.ev(e.args[0], st)), _int(ex.ev(e.args[1], st))
+    _use_succ(ex)
+    v = z3.Int("v#lsh")
+    from pyvc.sym import qforall
+    ent = [z3.Implies(iv(i) < d.vlen[v], z3.And(d.varr[v][iv(i)] >= 0, d.varr[v][iv(i)] == specz3.succ4(v, d.varr[v][iv(i)] % 4, k))) for i in range(4)]
+    return qforall([v], z3.Implies(d.has[v], z3.And(0 <= v, v < sp_ipow_val(4, k), 0 <= d.vlen[v], d.vlen[v] <= 4, *ent)), [d.has[v]])
+
+
+def sp_lm_written(ex, e, st):
+    """lm_written(acc, d, k[, pos, n]): column j of row v holds the j-th shift successor of v exactly when v is a key (listed before position n) whose list
+    contains that successor, and -1 otherwise."""
+    acc, d, k = _mat(ex.ev(e.args[0], st)), _dict(ex.ev(e.args[1], st)), _int(ex.ev(e.args[2], st))
+    _use_succ(ex)
+    v = z3.Int("v#lwr")
+    listed = d.has[v]
+    if len(e.args) > 3:
+        pos, n = ex.ev(e.args[3], st), _int(ex.ev(e.args[4], st))
+        listed = z3.And(d.has[v], pos[v] < n)
+    from pyvc.sym import qforall
+    cols = [acc.at(v, iv(j)) == z3.If(z3.And(listed, _lmemb(d, v, specz3.succ4(v, iv(j), k))), specz3.succ4(v, iv(j), k), -1) for j in range(4)]
+    return qforall([v], z3.Implies(z3.And(0 <= v, v < acc.rows), z3.And(*cols)), [acc.arr2[v]])
+
+
 def sp_occurs(ex, e, st):
     m, s_ = _seq(ex.ev(e.args[0], st)), _seq(ex.ev(e.args[1], st))
     return specz3.occ(m.arr, m.start, m.n, s_.arr, s_.start, s_.n)
@@ -940,7 +966,7 @@ def sp_accepts(ex, e, st):
 SPEC = {
     "forall": sp_forall, "forall_q": lambda ex, e, st: sp_forall(ex, e, st, expand=False), "exists": lambda ex, e, st: sp_forall(ex, e, st, exists=True), "implies": sp_implies, "old": sp_old,
     "digits": sp_digits, "val": sp_val, "dval": sp_dval, "val2": sp_val2, "canon": sp_canon, "ipow": sp_ipow, "dig": sp_dig,
-    "same": sp_same_seq, "upd": sp_upd, "accepts": sp_accepts, "haskey": sp_haskey, "order": sp_order, "sorted_positions": sp_sorted_positions, "lm_of": sp_lm_of, "lmemb": sp_lmemb, "lm_small": sp_lm_small, "lm_sub": sp_lm_sub, "lm_closed": sp_lm_closed, "aupd": sp_aupd, "lmlen": sp_lmlen, "ml_sound": sp_ml_sound, "lm_indexed": sp_lm_indexed, "lm_classified": sp_lm_classified, "lm_processed": sp_lm_processed, "lm_kept_big": sp_lm_kept_big, "lm_full": sp_lm_full, "lm_sclosed": sp_lm_sclosed, "lm_skept": sp_lm_skept, "ml_outside": sp_ml_outside, "scount": sp_scount, "comp": sp_comp, "chr_": sp_chr, "gc_window_ok": sp_gc_window_ok, "occurs": sp_occurs, "rc_code": sp_rc_code, "filter_ok": sp_filter_ok, "succ": sp_succ, "shuffled_row": sp_shuffled_row, "rng_is": sp_rng_is, "row_is": sp_row_is, "rdeg": sp_rdeg, "rarc": sp_rarc, "rdigit": sp_rdigit, "is_perm_row": sp_is_perm_row, "row": sp_row, "rwalkv": sp_rwalkv, "A2": sp_A2, "vt_matches": sp_vt_matches, "rwt": sp_rwt, "rlv": sp_rlv, "rhv": sp_rhv, "here": sp_here, "deg": sp_deg, "arc_of_digit": sp_arc_of_digit, "digit_of_arc": sp_digit_of_arc, "is_accessor": sp_is_accessor,
+    "same": sp_same_seq, "upd": sp_upd, "accepts": sp_accepts, "haskey": sp_haskey, "order": sp_order, "sorted_positions": sp_sorted_positions, "lm_of": sp_lm_of, "lmemb": sp_lmemb, "lm_small": sp_lm_small, "lm_sub": sp_lm_sub, "lm_closed": sp_lm_closed, "aupd": sp_aupd, "lmlen": sp_lmlen, "ml_sound": sp_ml_sound, "lm_indexed": sp_lm_indexed, "lm_classified": sp_lm_classified, "lm_processed": sp_lm_processed, "lm_kept_big": sp_lm_kept_big, "lm_full": sp_lm_full, "lm_sclosed": sp_lm_sclosed, "lm_skept": sp_lm_skept, "ml_outside": sp_ml_outside, "scount": sp_scount, "lm_shift": sp_lm_shift, "lm_written": sp_lm_written, "comp": sp_comp, "chr_": sp_chr, "gc_window_ok": sp_gc_window_ok, "occurs": sp_occurs, "rc_code": sp_rc_code, "filter_ok": sp_filter_ok, "succ": sp_succ, "shuffled_row": sp_shuffled_row, "rng_is": sp_rng_is, "row_is": sp_row_is, "rdeg": sp_rdeg, "rarc": sp_rarc, "rdigit": sp_rdigit, "is_perm_row": sp_is_perm_row, "row": sp_row, "rwalkv": sp_rwalkv, "A2": sp_A2, "vt_matches": sp_vt_matches, "rwt": sp_rwt, "rlv": sp_rlv, "rhv": sp_rhv, "here": sp_here, "deg": sp_deg, "arc_of_digit": sp_arc_of_digit, "digit_of_arc": sp_digit_of_arc, "is_accessor": sp_is_accessor,
     "is_table": sp_is_table, "first": sp_first, "second": sp_second, "dec_step": sp_dec_step, "walkv": sp_walkv, "enc_step": sp_enc_step, "fast_step": sp_fast_step, "fast_cells": sp_fast_cells, "floc": sp_floc, "link": sp_link, "wt": sp_wt, "lv": sp_lv, "hv": sp_hv, "ascents": sp_ascents, "nsucc": sp_nsucc, "rsum": sp_rsum, "code": sp_code, "dnav": sp_dnav, "codes": sp_codes, "is_dna": sp_is_dna, "pv": sp_pv, "store": sp_store, "A": sp_A, "D": sp_D, "P": sp_P, "seq_is": sp_seq_is, "seq_is_cons": sp_seq_is_cons, "ite": sp_ite, "isnone": sp_isnone, "cnt": sp_cnt, "ssum": sp_ssum,
 }
 
